@@ -107,11 +107,12 @@ def run_topic_check(ctx, prop, *, kinds, want, given, maxseq, u1_quick, u1_thoro
             behs.append(cex)
             labels.append(dev)
     # ---- goal-directed behaviours (trap properties on the as-built model): make the monitors' rare antecedents true
-    if len(users) - (1 if root else 0) >= 3 or p2p or "Note" in kinds or "Pub" in kinds:
+    if len(users) - (1 if root else 0) >= 3 or p2p or "Note" in kinds or "Pub" in kinds or "DelMsg" in kinds:
         gb = world.goal_behaviours(ctx, [u for u in users if u not in levels], {k: v for k, v in sess.items() if k not in roots},
                                    ["g1", "p12"] if p2p else ["g1"], maxsubs=maxsubs, marks="Note" in kinds, perms="Pub" in kinds,
                                    suspend_root=(roots[0] if (suspend and roots) else None),
-                                   obo_root=(roots[0] if (roots and "DelMsg" in kinds) else None))
+                                   obo_root=(roots[0] if (roots and "DelMsg" in kinds) else None), hist="DelMsg" in kinds,
+                                   obo_pub_root=(roots[0] if (roots and "Pub" in kinds) else None))
         for name, b in sorted(gb.items()):
             behs.append(b)
             labels.append("goal:" + name)
